@@ -1,4 +1,4 @@
-import CsVerif.Lemmas.C10
+import CsVerif.Lemmas.C10U
 /-! C10 property theorems: regenerated profile text preserves every token of the parsed profile. -/
 namespace C10
 open Grammar (Item Form)
@@ -29,8 +29,16 @@ theorem gen_unlexable_keywords : gen.keywords.filter (fun k => !lexableTok gen.w
   decide +kernel
 
 /-- within one rule the alternatives are distinguishable by keyword prefix + one token of lookahead, and every
-repetition / option is decided on one token -/
+repetition / option is decided on one token (token classes compared by identity) -/
 theorem gen_parseWF : ParseWF gen = true := by decide +kernel
+
+/-- the same with token classes compared by the texts they accept (`spawnto_x86`, `pipename`, … are keywords inside
+`post-ex` / `dns-beacon` AND words of the terminal OPTION): keywords are pairwise different, and wherever one token
+decides, no text fits both sides -/
+theorem gen_parseWFT : ParseWFT gen = true := by decide +kernel
+
+/-- the grammar is not recursive; the nesting budget of the model parser covers it -/
+theorem gen_depthOK : DepthOK gen = true := by decide +kernel
 
 /-- every statement and block ends with `;` or `}`: `postproc` never drops a trailing partial line -/
 theorem gen_terminatedWF : TerminatedWF gen = true := by decide +kernel
@@ -184,14 +192,97 @@ theorem parse_history_independent (G : Table) (st : Option Tree) (pre : List HSt
   rw [h, h, List.getLast?_append]
   simp
 
-/-- NOT PROVED (stretch goal of the design): a token sequence has at most one tree.  `ParseWF` is the decidable
-hypothesis it is planned under; the statement is kept here at full strength, no theorem in this file depends on
-it.  `reparse_same_tree` gives the second half of the property for the model parser (a function of the token
-list); that Lark's LALR(1) parser computes the same function is trusted and compared on every generated case
-(`tree …` and `reparse=T` against `from_text(as_text()).tree == tree`). -/
-def unique_readability_full : Prop :=
-  ∀ (G : Table), ParseWF G = true → IdsOK G = true → ∀ d₁ d₂ : Deriv, d₁.WF G = true → d₂.WF G = true →
-    d₁.form.origin = G.start → d₂.form.origin = G.start → d₁.yield = d₂.yield → toTree d₁ = toTree d₂
+/-! ### A sentence has one tree; the model parser finds it -/
+
+/-- Derivations are determined by their sentence: under `ParseWF`, two well-formed derivations of the same
+nonterminal with the same token sequence are EQUAL (same forms everywhere, not only the same tree). -/
+theorem derivation_unique (G : Table) (hp : ParseWF G = true) (d₁ d₂ : Deriv) (h₁ : d₁.WF G = true)
+    (h₂ : d₂.WF G = true) (ho : d₁.form.origin = d₂.form.origin) (hy : d₁.yield = d₂.yield) : d₁ = d₂ :=
+  deriv_unique G hp h₁ h₂ ho hy
+
+/-- Unique readability (the design's stretch goal, formerly the open `unique_readability_full`): a token sequence
+has at most one tree.  `ParseWF` is the check of Model/C10.lean as it is now; the check as first written was too
+weak for this statement, see `parseWF0_too_weak` below.  (`IdsOK` is not needed.) -/
+theorem unique_readability (G : Table) (hp : ParseWF G = true) (_hi : IdsOK G = true) (d₁ d₂ : Deriv)
+    (h₁ : d₁.WF G = true) (h₂ : d₂.WF G = true) (s₁ : d₁.form.origin = G.start) (s₂ : d₂.form.origin = G.start)
+    (hy : d₁.yield = d₂.yield) : toTree d₁ = toTree d₂ := by
+  rw [deriv_unique G hp h₁ h₂ (s₁.trans s₂.symm) hy]
+
+/-- for the grammar as it is now: no hypothesis on the table is left -/
+theorem unique_readability_gen (d₁ d₂ : Deriv) (h₁ : d₁.WF gen = true) (h₂ : d₂.WF gen = true)
+    (s₁ : d₁.form.origin = gen.start) (s₂ : d₂.form.origin = gen.start) (hy : d₁.yield = d₂.yield) :
+    toTree d₁ = toTree d₂ :=
+  unique_readability gen gen_parseWF gen_idsOK d₁ d₂ h₁ h₂ s₁ s₂ hy
+
+/-- The statement is FALSE for the lookahead check as it was first written (`ParseWF0`, kept in Lemmas/C10U.lean):
+three small tables pass it and are ambiguous —
+`cex1` (`S → A*`, `A → "a" | "(" S A* ")"`): the start symbol was assumed never to be followed by anything;
+`cex2` (`S → B? ";"`, `B → C*`): an optional part that can be empty;
+`cex3` (`S → M* ";"`, `M → "m" N*`, `N → "m"`): after one `M` of `M*` another `M` can follow.
+The present `ParseWF` rejects all three. -/
+theorem parseWF0_ambiguous :
+    (ParseWF0 cex1 = true ∧ Ambiguous cex1 cex1_d1 cex1_d2 ∧ ParseWF cex1 = false) ∧
+    (ParseWF0 cex2 = true ∧ Ambiguous cex2 cex2_d1 cex2_d2 ∧ ParseWF cex2 = false) ∧
+    (ParseWF0 cex3 = true ∧ Ambiguous cex3 cex3_d1 cex3_d2 ∧ ParseWF cex3 = false) := by decide
+
+theorem parseWF0_too_weak :
+    ¬ ∀ (G : Table), ParseWF0 G = true → IdsOK G = true → ∀ d₁ d₂ : Deriv, d₁.WF G = true → d₂.WF G = true →
+      d₁.form.origin = G.start → d₂.form.origin = G.start → d₁.yield = d₂.yield → toTree d₁ = toTree d₂ := by
+  intro h
+  obtain ⟨hw, ⟨hi, a1, a2, a3, a4, a5, a6⟩, _⟩ := parseWF0_ambiguous.2.1
+  exact a6 (h cex2 hw hi _ _ a1 a2 a3 a4 a5)
+
+/-- Completeness of the model parser: under `ParseWFT` (lookahead on token texts) and `DepthOK` (no recursion), the
+token texts of ANY well-formed derivation from the start symbol whose tokens are `tokOK` (keyword ids of the table,
+named tokens whose text matches their terminal) parse back to that very derivation — ordered choice never takes a
+wrong alternative, greedy repetition stops where the sentence does, the fuel never runs out. -/
+theorem parse_complete (G : Table) (hp : ParseWFT G = true) (hi : IdsOK G = true) (hdep : DepthOK G = true)
+    (d : Deriv) (hd : d.WF G = true) (hstart : d.form.origin = G.start)
+    (hok : ∀ t ∈ d.yield, tokOK G t = true) : parseToks G (d.yield.map G.tokText) = .ok d :=
+  parseToks_complete G hp hi hdep hd hstart hok
+
+/-- The model parser computes exactly "the derivation of the token list": it answers `d` iff `d` is a well-formed
+derivation from the start symbol with `tokOK` tokens whose texts are the input (and by `parse_complete` /
+`derivation_unique` there is at most one such `d`). -/
+theorem parse_spec (G : Table) (hp : ParseWFT G = true) (hi : IdsOK G = true) (hdep : DepthOK G = true)
+    (toks : List Text) (d : Deriv) :
+    parseToks G toks = .ok d ↔
+      d.WF G = true ∧ d.form.origin = G.start ∧ (∀ t ∈ d.yield, tokOK G t = true) ∧ d.yield.map G.tokText = toks := by
+  constructor
+  · intro h
+    obtain ⟨h1, h2, h3⟩ := parseToks_sound G hi h
+    exact ⟨h1, h2, parseToks_tokOK G h, h3⟩
+  · rintro ⟨h1, h2, h3, rfl⟩
+    exact parseToks_complete G hp hi hdep h1 h2 h3
+
+/-- for the grammar as it is now -/
+theorem parse_complete_gen (d : Deriv) (hd : d.WF gen = true) (hstart : d.form.origin = gen.start)
+    (hok : ∀ t ∈ d.yield, tokOK gen t = true) : parseToks gen (d.yield.map gen.tokText) = .ok d :=
+  parse_complete gen gen_parseWFT gen_idsOK gen_depthOK d hd hstart hok
+
+/-- The parse-back direction for trees that did NOT come from the parser (builder-made trees, C11): for any
+well-formed derivation `d` from the start symbol with `tokOK`, lexable tokens, `as_text` of its tree exists and
+`from_text` of that text is `d` again — hence the very same tree. -/
+theorem text_of_derivation_parses (G : Table) (hw : PrintWF G = true) (hp : ParseWFT G = true) (hi : IdsOK G = true)
+    (hdep : DepthOK G = true) (hk : KwClean G.words = true) (ht : TerminatedWF G = true) (idc : Nat → Bool)
+    (hc : IdcOK idc) (d : Deriv) (hd : d.WF G = true) (hstart : d.form.origin = G.start)
+    (hok : ∀ t ∈ d.yield, tokOK G t = true) (hl : ∀ t ∈ d.yield, lexableTok G.words (G.tokText t) = true) :
+    ∃ text, asText G idc (toTree d) = some text ∧ parseText G text = .ok d := by
+  have hrl := as_text_relex G hw hk idc hc d hd hl (yield_terminated G ht hd hstart)
+  have hprint := print_eq_source G hw d hd
+  refine ⟨asTextOf G idc d.yield, by simp [asText, hprint], ?_⟩
+  simp only [asText, hprint, Option.map_some, Option.bind_some] at hrl
+  unfold parseText
+  rw [hrl]
+  exact parseToks_complete G hp hi hdep hd hstart hok
+
+/-- for the grammar as it is now -/
+theorem text_of_derivation_parses_gen (idc : Nat → Bool) (hc : IdcOK idc) (d : Deriv) (hd : d.WF gen = true)
+    (hstart : d.form.origin = gen.start) (hok : ∀ t ∈ d.yield, tokOK gen t = true)
+    (hl : ∀ t ∈ d.yield, lexableTok gen.words (gen.tokText t) = true) :
+    ∃ text, asText gen idc (toTree d) = some text ∧ parseText gen text = .ok d :=
+  text_of_derivation_parses gen gen_printWF gen_parseWFT gen_idsOK gen_depthOK gen_kwClean gen_terminatedWF idc hc d hd
+    hstart hok hl
 
 /-! ### Non-vacuity (stated through the source text, so that it does not depend on how names are interned) -/
 
@@ -206,6 +297,7 @@ def exampleHolds : Bool :=
     d.yield.map gen.tokText == [[115, 101, 116], [115, 108, 101, 101, 112, 116, 105, 109, 101], [34, 53, 34], [59]] &&
     printTree gen (toTree d) == some d.yield &&
     d.yield.all (fun t => lexableTok gen.words (gen.tokText t)) &&
+    d.yield.all (fun t => tokOK gen t) &&
     terminated (d.yield.map gen.tokText)
   | _ => false
 
